@@ -22,7 +22,7 @@ def cases(tier, seed):
     for rel in files.fixtures():
         out.append({'id': 'fix:' + rel, 'file': {'kind': 'fixture', 'rel': rel}, 'nops': 60 if tier == 'quick' else 400,
                     'cost': 2})
-    reps = 1 if tier == 'quick' else 8
+    reps = 3 if tier == 'quick' else 12
     cap = 600_000 if tier == 'quick' else 6_000_000
     for rep in range(reps):
         for fam, lays in files.LAYOUTS_3D.items():
